@@ -20,6 +20,7 @@ package main
 
 import (
 	"fmt"
+	"os"
 	"sort"
 	"strconv"
 	"strings"
@@ -159,6 +160,9 @@ func (comp) Gen(r *kit.Rng, maxLen int, tier string) kit.Case {
 	if r.Chance(60) {
 		w = 1
 	}
+	if perWorker(kcap, w) == 0 || perWorker(dcap, w) == 0 {
+		w = 1 // WorkerCount 0 makes the per-worker size one less than configured; 0 is refused by lru.New
+	}
 	perK := int(perWorker(kcap, w))
 	perD := perWorker(dcap, w)
 	u := perK + 2 + r.Intn(5)
@@ -180,6 +184,7 @@ func (comp) Gen(r *kit.Rng, maxLen int, tier string) kit.Case {
 		return r.Intn(u)
 	}
 	floods := 0
+	allowFlood := r.Chance(8)
 	// a drop-heavy profile reaches the rotation thresholds; a kept-heavy one exercises the LRU
 	wRK, wRD := 20, 16
 	switch r.Intn(3) {
@@ -250,7 +255,7 @@ func (comp) Gen(r *kit.Rng, maxLen int, tier string) kit.Case {
 			ops = append(ops, fmt.Sprintf("adv %d", d))
 		case 8:
 			// fill the add queue up to (around) its depth with ids outside the universe
-			if floods < 2 && depth > 0 {
+			if allowFlood && floods < 2 && depth > 0 {
 				floods++
 				k := depth - qlen - 2 + r.Intn(5)
 				if k < 1 {
@@ -441,4 +446,30 @@ func (r *runner) Close() {
 	}
 }
 
-func main() { kit.Main(comp{}, facts) }
+// liveGap is a stand-alone probe (not part of the check): with the cache's own goroutines
+// running, how often does CheckTrace right after Record(dropped) not answer "dropped"?
+func liveGap() {
+	c, _ := newCache(10, 1000, 1)
+	defer c.Stop()
+	missTrace, missSpan := 0, 0
+	for i := 0; i < 1000; i++ {
+		id := fmt.Sprintf("live-%d", i)
+		c.Record(&ktrace{id: id}, false, "")
+		if rec, _, found := c.CheckTrace(id); !found || rec.Kept() {
+			missTrace++
+		}
+		if rec, _, found := c.CheckSpan(&types.Span{TraceID: id, Event: &types.Event{}}); !found || rec.Kept() {
+			missSpan++
+		}
+		time.Sleep(300 * time.Microsecond)
+	}
+	fmt.Printf("live goroutines: CheckTrace right after Record(dropped) not answered dropped %d/1000, CheckSpan %d/1000\n", missTrace, missSpan)
+}
+
+func main() {
+	if len(os.Args) > 1 && os.Args[1] == "livegap" {
+		liveGap()
+		return
+	}
+	kit.Main(comp{}, facts)
+}
